@@ -24,6 +24,9 @@ meta.setdefault('checks', {})[prop] = {
     'rc': rc, 'violations': len(viol), 'signatures': sorted(set(sigs))[:4],
     'wall_s': float(wall[-1]) if wall else 0.0, 'recorded': time.strftime('%Y-%m-%d %H:%M'),
     'how': 'run.py %s --tier quick with VERIF_REPO=<scratch worktree of /repo HEAD + patch.diff>' % prop}
-meta['detected'] = any(v.get('rc') == 1 for v in meta['checks'].values())
+# a run that the seed runner's time limit cut off after it had printed VIOLATION lines has its verdict:
+# a check that has reported a violation exits 1 when it gets to its end
+meta['detected'] = any(v.get('rc') == 1 or (v.get('rc') == 'timeout' and v.get('violations', 0) > 0)
+                       for v in meta['checks'].values())
 json.dump(meta, open(path, 'w'), indent=1)
 print(sid, prop, rc, len(viol))
